@@ -353,6 +353,7 @@ func propC06(j *Job) {
 							Streams: []streamSpec{
 								{SID: 1, From: 0, Unordered: unordered, RelType: p.typ, RelVal: p.val, Msgs: msgs},
 								{SID: 2, From: 0, Msgs: []msgSpec{{Size: 30, PPI: 53}, {Size: P + 3, PPI: 53}}},
+								{SID: 3, From: 0, Unordered: true, Msgs: []msgSpec{{Size: 2*P + 4, PPI: 51}, {Size: 2*P + 5, PPI: 51}}},
 							},
 							Faults:     faultSet{Drop: true, Dup: true, Late: true, Swap: true},
 							Interleave: true,
@@ -364,8 +365,8 @@ func propC06(j *Job) {
 							}
 							spec.Kill = []killRule{{SID: 1, Msg: 1, Frag: fr, N: kn}}
 							k = 1
-							if !j.Thorough() {
-								k = 0
+							if j.Thorough() && p.typ == ReliabilityTypeRexmit && p.val == 0 {
+								k = 2
 							}
 						}
 						cases = append(cases, xferCase{Name: fmt.Sprintf("P/%s/U%v/%s/f%d/kill%d", mode.Name, unordered, p.name, frag, kn), K: k, Spec: spec})
